@@ -468,14 +468,18 @@ def _engine():
     global _ENGINE
     if _ENGINE is None:
         from mc import eng
-        try:
+        import time
+        err = None
+        for attempt in range(4):            # the build cache may be pruned by a concurrent run: build again
             try:
                 _ENGINE = eng.make_engine("euler")
-            except OSError:
-                eng._paths.clear()          # cached build removed meanwhile: build again
-                _ENGINE = eng.make_engine("euler")
-        except Exception as e:
-            raise _NoEngine("%s: %s" % (type(e).__name__, e))
+                break
+            except Exception as e:
+                err = e
+                eng._paths.clear()
+                time.sleep(0.5 * (attempt + 1))
+        if _ENGINE is None:
+            raise _NoEngine("%s: %s" % (type(err).__name__, err))
     return _ENGINE
 
 
@@ -689,7 +693,8 @@ def _spaces(tier):
     else:
         sp.append(_sp("cg 2-D 3x3: all maps {-1,0,1}^9, 2-environment map", "cg", (3, 3, 1), _labels(1),
                       envs=("two",)))
-        sp.append(_sp("cg 3-D 2x2x2: all maps {-1,0,1}^8 x 3 environment maps", "cg", (2, 2, 2), _labels(1)))
+        sp.append(_sp("cg 3-D 2x2x2: all maps {-1,0,1}^8 x {uniform, 3 environments}", "cg", (2, 2, 2), _labels(1),
+                      envs=("uniform", "three")))
     # -- static: invalidity classes outside {-1..m}^n -----------------------------------------------------------
     for g in ((1, 1, 1), (2, 1, 1), (3, 1, 1), (4, 1, 1), (2, 2, 1)):
         n = g[0] * g[1] * g[2]
@@ -726,7 +731,7 @@ def _spaces(tier):
                       "cg", (2, 2, 2), _labels(0), units=(1, 2)))
     # -- uncoarsegrain_trajectory on hand-built coarse trajectories (valid maps of the enumerated set) ------------
     unc = [((3, 1, 1), 2, (0, 1)), ((4, 1, 1), 3, (0, 1)), ((2, 2, 1), 3, (0, 1)), ((3, 2, 1), 2, (0, 1)),
-           ((2, 2, 2), 1, (0, 1))]
+           ((2, 2, 2), 1, (0,))]
     if T:
         unc += [((5, 1, 1), 4, (0, 1)), ((3, 3, 1), 1, (0, 1)), ((2, 2, 2), 2, (0,))]
     for g, mx, dus in unc:
